@@ -159,6 +159,11 @@ template <typename T> void one_case(const char* tname, uint64_t ci, const std::s
       { ExactBuf b(stream.data(), stream.size()); nop::Deserializer<nop::BufferReader> d{b.p, stream.size()}; read_all<T>(d, vs, c, "Deserializer<BufferReader>", protocol); if (d.reader().remaining() != 0) viol(c, prop + ":forms:consumed:Deserializer<BufferReader>", "bytes left over after the sequence and the sentinel"); }
       { ExactBuf b(stream.data(), stream.size()); nop::Deserializer<nop::PedanticBufferReader> d{b.p, stream.size()}; read_all<T>(d, vs, c, "Deserializer<PedanticBufferReader>", protocol); if (d.reader().remaining() != 0) viol(c, prop + ":forms:consumed:Deserializer<PedanticBufferReader>", "bytes left over after the sequence and the sentinel"); }
       { nop::Deserializer<SR> d{std::string((const char*)stream.data(), stream.size())}; read_all<T>(d, vs, c, "Deserializer<StreamReader>", protocol); }
+      { // a stream whose first bytes the application consumed itself, handed to the reader as an rvalue: reading continues where the stream stands
+        std::string all = std::string("\x2a\x2b") + std::string((const char*)stream.data(), stream.size()); std::stringstream ss(all); char h0, h1; ss.get(h0); ss.get(h1);
+        nop::Deserializer<SR> d{std::move(ss)}; read_all<T>(d, vs, c, "Deserializer<StreamReader>(stream&& after a header)", protocol); }
+      { // and the writer side: a stream that already holds application data, handed over as an rvalue: the encoding is appended
+        std::stringstream ss; ss << "hd"; nop::Serializer<SW> s{std::move(ss)}; if (write_all<T>(s, vs, c, "Serializer<StreamWriter>(stream&& holding a header)", protocol)) { std::string o = s.writer().stream().str(); Bytes want = {'h', 'd'}; want.insert(want.end(), vs.ref.begin(), vs.ref.end()); cmp_bytes(Bytes(o.begin(), o.end()), want, c, "Serializer<StreamWriter>(stream&& holding a header)"); } }
       { ExactBuf b(stream.data(), stream.size()); nop::Deserializer<nop::PedanticBufferReader> d0{b.p, stream.size()}; nop::Deserializer<nop::PedanticBufferReader> d{d0.take()}; read_all<T>(d, vs, c, "Deserializer<PedanticBufferReader>::take", protocol); }
       fd_read_form<T>(stream, vs, c, protocol, HasFd<T>{});
       { ExactBuf b(stream.data(), stream.size()); nop::PedanticBufferReader rd{b.p, stream.size()}; nop::Deserializer<nop::PedanticBufferReader*> d{&rd}; nop::Deserializer<nop::PedanticBufferReader*> dc = d; read_all<T>(dc, vs, c, "Deserializer<PedanticBufferReader*>", protocol); }
